@@ -392,22 +392,25 @@ func (db *RockDB) KVExists(keys ...[]byte) (int64, error) {
 	if len(keys) == 1 {
 		return db.isKVExistOrExpired(tn, keys[0])
 	}
-	keyList := make([][]byte, len(keys))
-	valueList := make([][]byte, len(keys))
-	errs := make([]error, len(keys))
+	// only the well-formed keys are looked up: a refused key never exists, and a nil key must not
+	// reach the engine (the mem engine answers it with the first record of the whole store)
+	keyList := make([][]byte, 0, len(keys))
+	argPos := make([]int, 0, len(keys))
 	for i, k := range keys {
 		_, kk, err := convertRedisKeyToDBKVKey(k)
 		if err != nil {
-			keyList[i] = nil
-			errs[i] = err
-		} else {
-			keyList[i] = kk
+			continue
 		}
+		keyList = append(keyList, kk)
+		argPos = append(argPos, i)
 	}
+	valueList := make([][]byte, len(keyList))
+	errs := make([]error, len(keyList))
 	cnt := int64(0)
 	db.MultiGetBytes(keyList, valueList, errs)
-	for i, v := range valueList {
-		if errs[i] == nil && v != nil {
+	for j, v := range valueList {
+		i := argPos[j]
+		if errs[j] == nil && v != nil {
 			expired, _ := db.expiration.isExpired(tn, KVType, keys[i], v, true)
 			if expired {
 				continue
@@ -503,20 +506,29 @@ func (db *RockDB) IncrBy(ts int64, key []byte, increment int64) (int64, error) {
 }
 
 func (db *RockDB) MGet(keys ...[]byte) ([][]byte, []error) {
-	keyList := make([][]byte, len(keys))
 	valueList := make([][]byte, len(keys))
 	errs := make([]error, len(keys))
+	// only the well-formed keys are looked up (a nil key must not reach the engine: the mem engine
+	// answers it with the first record of the whole store); every result goes back to the position
+	// of its own argument, a refused key keeps its error and a nil value
+	keyList := make([][]byte, 0, len(keys))
+	argPos := make([]int, 0, len(keys))
 	for i, k := range keys {
 		_, kk, err := convertRedisKeyToDBKVKey(k)
 		if err != nil {
-			keyList[i] = nil
 			errs[i] = err
-		} else {
-			keyList[i] = kk
+			continue
 		}
+		keyList = append(keyList, kk)
+		argPos = append(argPos, i)
 	}
 	tn := time.Now().UnixNano()
-	db.MultiGetBytes(keyList, valueList, errs)
+	vals := make([][]byte, len(keyList))
+	verrs := make([]error, len(keyList))
+	db.MultiGetBytes(keyList, vals, verrs)
+	for j, i := range argPos {
+		valueList[i], errs[i] = vals[j], verrs[j]
+	}
 	//log.Printf("mget: %v", keyList)
 	for i, v := range valueList {
 		if errs[i] == nil {
